@@ -280,9 +280,21 @@ class FalsyInt(int):
 
 
 def pool_f(x, a=2):
-    """the functor used with the pools: every third result is a falsy object (still an int, so the harness can invert it)"""
+    """the functor used with the pools: every third result is a falsy object (still an int, so the harness can invert it);
+    a `None` input gives a `None` result"""
+    if x is None:
+        return None
     y = x * a + 1
     return FalsyInt(y) if y % 3 == 0 else y
+
+
+def pool_input(k, i, with_none=False):
+    """the i-th input element of the k-th call: an element is any object — falsy numbers and (`with_none`) `None` included
+    (a pool that filters its data with `if x` / `is not None` loses them)"""
+    if with_none and i % 5 == 1:
+        return None
+    v = k * 1000 + i
+    return FalsyInt(v) if i % 5 == 3 else v
 
 
 def err_name(e: BaseException) -> str:
